@@ -6,12 +6,12 @@ import recipes as rc
 from aotools.turbulence import phasescreen as ps, infinitephasescreen as ips
 
 PID = "C06"
-RULE = ("random interleavings of operations on several screen objects (FFT screen, sub-harmonic screen, infinite von Karman and Fried screens with "
+RULE = ("histories over up to three seeded objects (construct, add_row, make_initial_screen again, read), seeded FFT calls and global-generator operations, executed on the implementation and on the Coq state machine (symbolic generator, vm_compute): the partition of all outputs into bit-identical classes must be the model's; further: random interleavings of operations on several screen objects (FFT screen, sub-harmonic screen, infinite von Karman and Fried screens with "
         "add_row / read / repr) with changes of NumPy's and Python's global random state, global draws, unrelated aotools calls and operations on "
         "other instances; the outputs of a target (same seed and parameters) are compared BITWISE with an isolated reproduction; seeds include 0, "
         "numpy integers and large values; the global generator state is compared before/after every aotools call; non-trivial = history with at "
         "least three interleaved foreign operations; distinct = distinct (target, history)")
-TRUSTED = ["translate/effects_fp.py footprint table (no global state in the screen modules) -- confirmed dynamically here",
+TRUSTED = ["model coq/model/SeededObjs.v hand-written (generator discipline); tied by the history correspondence", "translate/effects_fp.py footprint table (no global state in the screen modules) -- confirmed dynamically here",
            "numpy.random.Generator is a deterministic state machine private to the object; PCG64 streams of different seeds differ (contract)"]
 ASSUMPTIONS = ["'different seeds differ' and 'unseeded calls differ' rest on PCG64 / OS entropy: observed, not proved"]
 SEEDS = [0, 1, 5, 12345, 2 ** 31 - 1, 2 ** 40 + 3, "np0", "np7"]
@@ -108,6 +108,111 @@ def bits_same(a, b):
     return len(a) == len(b) and all(x.shape == y.shape and x.tobytes() == y.tobytes() for x, y in zip(a, b))
 
 
+IMPORTS = ["AOV.model.SeededObjs"]
+PRELUDE = """Definition sv_eqb (a b : SV) : bool := Z.eqb (fst (fst a)) (fst (fst b)) && Nat.eqb (snd (fst a)) (snd (fst b)) && Nat.eqb (snd a) (snd b).
+Fixpoint lsv_eqb (a b : list SV) : bool := match a, b with [], [] => true | x :: r, y :: s => sv_eqb x y && lsv_eqb r s | _, _ => false end.
+Definition ss_eqb (a b : SS) : bool := Nat.eqb (fst (fst a)) (fst (fst b)) && Nat.eqb (snd (fst a)) (snd (fst b)) && lsv_eqb (snd a) (snd b).
+Definition okey_eqb (a b : option SS) : bool := match a, b with Some x, Some y => ss_eqb x y | None, None => true | _, _ => false end.
+Fixpoint first_idx (k : option SS) (l : list (option SS)) (i : nat) : nat := match l with [] => i | x :: r => if okey_eqb k x then i else first_idx k r (S i) end.
+Definition classes (l : list (option SS)) : list nat := map (fun k => first_idx k l 0) l.
+Fixpoint nl_eqb (a b : list nat) : bool := match a, b with [], [] => true | x :: r, y :: s => Nat.eqb x y && nl_eqb r s | _, _ => false end.
+Definition one (_ : nat) : nat := 1.
+Definition hist_ok (ops : list (op nat)) (cls : list nat) : bool := nl_eqb (classes (s_run one one one ops)) cls.
+"""
+HPARS = [{"kind": "vk", "N": 8, "ps": 0.1, "r0": 0.2, "L0": 20.0}, {"kind": "vk", "N": 8, "ps": 0.1, "r0": 0.3, "L0": 20.0},
+         {"kind": "fried", "N": 8, "ps": 0.1, "r0": 0.2, "L0": 20.0}, {"kind": "vk", "N": 9, "ps": 0.2, "r0": 0.2, "L0": 35.0},
+         {"kind": "ft", "N": 8, "ps": 0.1, "r0": 0.2, "L0": 20.0}, {"kind": "sh", "N": 8, "ps": 0.1, "r0": 0.2, "L0": 20.0},
+         {"kind": "ft", "N": 6, "ps": 0.3, "r0": 0.1, "L0": 50.0}]
+HSEEDS = [0, 1, 5, 12345, 2 ** 40 + 3, "np0", "np7"]
+
+
+def gen_history(rng, nops):
+    """a random history over up to three object ids, seeded FFT calls and the global generator (model op list)"""
+    ops, alive = [], []
+    for _ in range(nops):
+        kind = rng.choice(["new", "add", "add", "add", "reinit", "read", "ft", "gseed", "gdraw"])
+        if kind == "new" or (kind in ("add", "reinit", "read") and not alive):
+            i = rng.randint(0, 2); ops.append(["New", i, rng.choice([0, 1, 2, 3]), rng.choice(HSEEDS)])
+            if i not in alive:
+                alive.append(i)
+        elif kind == "add":
+            ops.append(["AddRow", rng.choice(alive)])
+        elif kind == "reinit":
+            ops.append(["Reinit", rng.choice(alive)])
+        elif kind == "read":
+            ops.append(["Read", rng.choice(alive)])
+        elif kind == "ft":
+            ops.append(["Ft", rng.choice([4, 5, 6]), rng.choice(HSEEDS)])
+        elif kind == "gseed":
+            ops.append(["GSeed", rng.randint(0, 1000)])
+        else:
+            ops.append(["GDraw", rng.randint(1, 20)])
+    return ops
+
+
+def seed_z(s):
+    return 0 if s == "np0" else (7 if s == "np7" else int(s))
+
+
+def run_history(ops):
+    """executes the history on the implementation; returns one bytes value (or None) per operation"""
+    objs, outs = {}, []
+    with warnings.catch_warnings():
+        warnings.simplefilter("ignore")
+        for o in ops:
+            if o[0] == "New":
+                p = HPARS[o[2]]
+                cls = ips.PhaseScreenVonKarman if p["kind"] == "vk" else ips.PhaseScreenKolmogorov
+                kw = {} if p["kind"] == "vk" else {"stencil_length_factor": 2}
+                objs[o[1]] = cls(p["N"], p["ps"], p["r0"], p["L0"], random_seed=mkseed(o[3]), **kw)
+                outs.append(numpy.array(objs[o[1]].scrn, copy=True).tobytes())
+            elif o[0] == "AddRow":
+                objs[o[1]].add_row(); outs.append(numpy.array(objs[o[1]].scrn, copy=True).tobytes())
+            elif o[0] == "Reinit":
+                objs[o[1]].make_initial_screen(); outs.append(numpy.array(objs[o[1]].scrn, copy=True).tobytes())
+            elif o[0] == "Read":
+                _ = repr(objs[o[1]]); outs.append(numpy.array(objs[o[1]].scrn, copy=True).tobytes())
+            elif o[0] == "Ft":
+                p = HPARS[o[1]]
+                f = ps.ft_phase_screen if p["kind"] == "ft" else ps.ft_sh_phase_screen
+                outs.append(numpy.asarray(f(p["r0"], p["N"], p["ps"], p["L0"], 0.01, seed=mkseed(o[2]))).tobytes())
+            elif o[0] == "GSeed":
+                numpy.random.seed(o[1]); outs.append(None)
+            else:
+                numpy.random.normal(size=o[1]); numpy.random.rand(); outs.append(None)
+    return outs
+
+
+def classes_of(outs):
+    cls = []
+    for i, x in enumerate(outs):
+        cls.append(next(j for j in range(i + 1) if outs[j] == x))
+    return cls
+
+
+def coq_ops(ops):
+    def one(o):
+        if o[0] == "New":
+            return "New %d %d (%d)%%Z" % (o[1], o[2], seed_z(o[3]))
+        if o[0] == "Ft":
+            return "Ft %d (%d)%%Z" % (o[1], seed_z(o[2]))
+        if o[0] == "GSeed":
+            return "GSeed (%d)%%Z" % o[1]
+        return "%s %d" % (o[0], o[1])
+    return "([" + "; ".join(one(o) for o in ops) + "])%nat"
+
+
+def history_cases(rng, n, nops):
+    cases, meta = [], []
+    for _ in range(n):
+        ops = gen_history(rng, rng.randint(4, nops))
+        cls = classes_of(run_history(ops))
+        cases.append("hist_ok %s ([%s])%%nat" % (coq_ops(ops), "; ".join(str(c) for c in cls)))
+        nout = sum(1 for o in ops if o[0] not in ("GSeed", "GDraw"))
+        meta.append({"history": ops, "classes": cls, "nontrivial": len(set(c for c, o in zip(cls, ops) if o[0] not in ("GSeed", "GDraw"))) < nout})
+    return cases, meta
+
+
 def correspond(ctx):
     """dynamic confirmation of the footprint table for the screen modules: no aotools screen operation changes the global generators"""
     rng = ctx["rng"]
@@ -128,8 +233,16 @@ def correspond(ctx):
         meta.append({"target": t, "global_state_changed": changed, "nontrivial": True})
         if changed:
             div.append({"target": t, "what": "a screen operation changed NumPy's / Python's global generator state although the table says it does not"})
-    return {"cases": len(meta) + len(ents), "nontrivial": len(meta), "divergences": div, "errors": [],
-            "samples": [meta[0], meta[-1]], "hist": {"table_entries_checked": len(ents), "dynamic_targets": len(meta)}}
+    # histories against the state-machine model (coq/model/SeededObjs.v, run symbolically by vm_compute): the partition of the
+    # outputs into bit-identical classes must be the partition the model computes (same object history <=> same output)
+    hc, hm = history_cases(rng, 40 if ctx["tier"] == "quick" else 600, 14 if ctx["tier"] == "quick" else 30)
+    nev, failing, errors = common.run_cases(PID, IMPORTS, PRELUDE, hc, per_file=100)
+    for i in failing:
+        div.append({"what": "history: the implementation's outputs are not partitioned as the model says (same seed and own history <=> bit-identical)",
+                    "history": hm[i]["history"], "implementation_classes": hm[i]["classes"]})
+    return {"cases": len(meta) + len(ents) + nev, "nontrivial": len(meta) + sum(1 for m in hm if m["nontrivial"]), "divergences": div, "errors": errors,
+            "samples": [meta[0], meta[-1], hm[0]], "hist": {"table_entries_checked": len(ents), "dynamic_targets": len(meta), "model_histories": len(hm),
+                                                            "history_ops": sum(len(m["history"]) for m in hm)}}
 
 
 def isolated_reference(t):
